@@ -6,6 +6,20 @@ import re
 
 VERIF = os.path.dirname(os.path.dirname(os.path.abspath(__file__)))
 FIRST_MISSED = {
+    "C01j": "missed at first; caught after data collectors with shared module-level reporter functions that draw random numbers (prior history and measured run)",
+    "C02j": "missed at first; caught after the registry histories used the library's own agent families (CellAgent, FixedAgent, ...), placed and unplaced",
+    "C03j": "missed at first; caught after writes to unique_id / pos followed by every membership-sensitive query",
+    "C04j": "missed at first; caught after activations whose agents live in a space with warm caches and are removed from space and model by a hunter",
+    "C05j": "missed at first; caught after models were stepped through AgentSet.do / shuffle_do / map('step')",
+    "C07j": "missed at first; caught after the original's connections were re-read after every copy / pickle / copy.copy",
+    "C08j": "missed at first; caught after agents of several models (equal classes and ids) shared one grid, compared by identity",
+    "C09j": "missed at first; caught after property layers named like grid attributes (torus, width, height) were attached to the queried grids",
+    "C11j": "missed at first; caught after legacy multi grids with empties built before the last agent leaves a cell, emptiness from the real contents",
+    "C12j": "missed at first; caught after user code mutating copies of model.agents between collects (registration from the history's ledger)",
+    "C13j": "missed at first; caught after seeds of every form with number_processes 1 vs 2 and the hash salt not inherited by the workers",
+    "C17j": "missed at first; caught after ObservableLists as Computed inputs changed by += / o.l = o.l / equal copies",
+    "C19j": "missed at first; caught after lazily cached things (random selection, neighbourhoods) were warmed on the original before the copy",
+    "C20j": "missed at first; caught after drawing histories continued on a deep copy / pickle of the model",
     "C17h": "missed at first (the changed function is in C16's T1, not C17's); caught after the scale stream (one observable read by 257+ Computeds)",
     "C01i": "missed at first; caught after the user-code stream ran seeded models under forced collector regimes (agents in reference cycles)",
     "C08i": "missed at first; caught after agents whose pos is a notifying property with raising / re-entering listeners",
